@@ -14,8 +14,12 @@ package records
 //            until they age out, refusals justified).
 //   overlap  real goroutines: concurrent writers with a forced-overlap gate inside the
 //            datastore read of Put's read-select-write; oracle: no downgrade in the journal,
-//            final stored rank = best acknowledged.
-//   lin      (-race build) short concurrent histories checked with porcupine per key against
+//            final stored rank = best acknowledged. 1 case in 3 adds the expiry race.
+//   expiryrace (-race build) the overlap workload on keys that start with a pre-filed expired
+//            record, with readers (whose Gets discard it) and the 1 ms sweeper racing the
+//            writers: a discard must never remove a record written meanwhile, a Get invoked
+//            after an acknowledgement must return that record or a better one.
+//   lin     (-race build) short concurrent histories checked with porcupine per key against
 //            "register accepting a write iff it does not rank worse".
 
 import (
